@@ -82,6 +82,7 @@ MUTANTS += [
     B("c06-variable-unscheduled-duration-free", ["C06"], TK, "                    self._end == point_in_past,  # to past\n                    self._duration == 0,\n", "                    self._end == point_in_past,  # to past\n"),
     B("c06-force-schedule-negated", ["C06"], TC, "self.set_z3_assertions(self.task._scheduled == self.to_be_scheduled)", "self.set_z3_assertions(self.task._scheduled != self.to_be_scheduled)"),
     B("c06-condition-schedule-one-way", ["C06"], TC, "                self.task._scheduled == True,\n                self.task._scheduled == False,", "                self.task._scheduled == True,\n                True,"),
+    B("c06-dependency-one-way", ["C06"], TC, "self.set_z3_assertions(self.task_1._scheduled == self.task_2._scheduled)", "self.set_z3_assertions(z3.Implies(self.task_1._scheduled, self.task_2._scheduled))"),
     B("c06-dependency-wrong-task", ["C06"], TC, "self.set_z3_assertions(self.task_1._scheduled == self.task_2._scheduled)", "self.set_z3_assertions(self.task_1._scheduled == self.task_1._scheduled)"),
     B("c06-force-n-pb-table", ["C06"], TC, 'problem_function = {"min": z3.PbGe, "max": z3.PbLe, "exact": z3.PbEq}\n\n        # first check that all tasks from the list_of_optional_tasks', 'problem_function = {"min": z3.PbGe, "max": z3.PbLe, "exact": z3.PbLe}\n\n        # first check that all tasks from the list_of_optional_tasks'),
     B("c06-force-schedule-accepts-mandatory", ["C06", "C18"], TC, '        if not self.task.optional:\n            raise TypeError(f"Task {self.task.name} must be optional.")\n\n        self.set_z3_assertions(self.task._scheduled == self.to_be_scheduled)', '        self.set_z3_assertions(self.task._scheduled == self.to_be_scheduled)'),
@@ -304,6 +305,8 @@ MUTANTS += [
     B("c13-model-stored-before-verdict", ["C13"], SV, "            if sat_result == z3.unknown:\n                return False\n\n            # then get the solution\n            model = self._solver.model()", "            # then get the solution\n            model = self._solver.model()\n            if sat_result == z3.unknown:\n                return False\n"),
     B("c13-solver-adds-constraint", ["C13"], SV, "        # optimization\n        if self._is_optimization_problem:\n            self.create_objective()", "        # optimization\n        if self._is_optimization_problem:\n            self.problem.constraints[\"extra\"] = None\n            self.create_objective()"),
     # ---- C15 ----------------------------------------------------------------------
+    B("c08-bound-zero-is-falsy-lower", ["C08", "C15"], IND, "            if lower_bound is not None:", "            if lower_bound:"),
+    B("c08-bound-zero-is-falsy-upper", ["C08", "C15"], IND, "            if upper_bound is not None:", "            if upper_bound:"),
     B("c15-parallel-guards-drain", ["C15"], SV, "        for indic in self.problem.indicators.values():\n            self.append_z3_assertion(indic.get_z3_assertions())", "        for indic in self.problem.indicators.values():\n            if not self.parallel:\n                self.append_z3_assertion(indic.get_z3_assertions())"),
     B("c15-debug-tracks-first-only", ["C15", "C19"], SV, "            for asst in assts:\n                asst_identifier", "            for asst in assts[:1]:\n                asst_identifier"),
     B("c15-nondebug-drops-lists", ["C15"], SV, "        else:\n            self._solver.add(assts)", "        else:\n            if not isinstance(assts, list):\n                self._solver.add(assts)"),
